@@ -39,8 +39,14 @@ StrLit(bytes) == [t |-> "strlit", bytes |-> bytes]
 \* therefore depends on the host-language nesting, which the model does not track: with
 \* a budget set, a failing program may surface its own error or the budget error.
 NearBudget(s) == s.maxops > 0
-Fail(s, es) == [s EXCEPT !.status = "error", !.est = <<>>,
-                         !.errs = IF NearBudget(s) THEN es \cup {"budget"} ELSE es]
+\* A program may install its own handler in errordict.  What happens then (the handler runs, its
+\* outcome replaces the error) is outside the operators and control forms the properties speak
+\* about: the model gives no verdict on a failure whose handler is not the default one.
+HandlerChanged(s, es) ==
+    \E e \in es : e \in DOMAIN Cell(s.heap, ErrId).m /\ Cell(s.heap, ErrId).m[e] # OpV(".defaulterrorhandler")
+Fail(s, es) == IF HandlerChanged(s, es) THEN [s EXCEPT !.status = "skip", !.est = <<>>]
+               ELSE [s EXCEPT !.status = "error", !.est = <<>>,
+                              !.errs = IF NearBudget(s) THEN es \cup {"budget"} ELSE es]
 Live(s) == s.status = "running"
 \* NumOps++ followed by the budget test (interpreter.go, label recurseTail)
 Count(s) == IF s.maxops > 0 /\ s.nops + 1 > s.maxops
@@ -184,8 +190,9 @@ ExecOp(s, op) ==
          [] op \in {"stop", ".defaulterrorhandler"} ->
               \* the default handler of errordict executed directly (no pending error)
               \* behaves like the standard handlers: it stops the program
-              \* no `stopped` context exists: stop ends the current Execute call without error
-              [s EXCEPT !.est = <<>>, !.feed = DropCall(@)]
+              \* no `stopped` context exists: stop ends the current Execute call without error; inside
+              \* an eexec section it ends the section with it, and the dictionary stack stays as it is
+              [s EXCEPT !.est = <<>>, !.feed = DropCall(@), !.eex = 0]
          [] op = "bind" ->
               IF n < 1 THEN Fail(s, {"stackunderflow"})
               ELSE IF A(st, 0).t # "proc" THEN Fail(s, {"typecheck"})
